@@ -37,6 +37,8 @@ def judge(text: str):
 
 
 def shard(args):
+    if args[0] == "after-activity":
+        return after_activity_shard(args)
     country, tier = args
     part = par.Part()
     W = alphabet.wide(thorough=(tier == "thorough"))
@@ -46,6 +48,7 @@ def shard(args):
                 families.iban_prefixes(base), families.iban_checkpairs(base)]
         if filler == "distinct":
             gens.append(families.ws_padding(base))
+            gens.append(families.token_overlays(base, country))
         if tier == "thorough" and filler in ("distinct", "letters"):
             gens.append(families.double_subst(base))
         k, v = lib.iban_parse(base)
@@ -70,6 +73,29 @@ def shard(args):
     return part.done()
 
 
+def after_activity_shard(args):
+    """One process: the API prelude (mc/engine/activity.py), then a core enumeration for every
+    country against the same oracle - what earlier calls leave behind must not change acceptance."""
+    from ..engine import activity
+    _, tier = args
+    part = par.Part()
+    part.stat("prelude_calls", activity.exercise_api(report.SEED))
+    small = ["0", "5", "A", "Z", "a", "-", " ", "٣"]
+    for country in sorted(reg.countries()):
+        for filler, base in bases.base_ibans(country, ["distinct"]):
+            for gen in (families.iban_checkpairs(base), families.single_edits(base, small),
+                        families.iban_lengths(base)):
+                for fam, text in gen:
+                    part.count(("after", text), nontrivial=(text != base))
+                    ok, sig, exp, obs = judge(text)
+                    if not ok:
+                        part.violation(f"{sig} [{fam}, after API activity]", {"kind": "iban_text", "text": text,
+                                       "how": f"{fam} from base {base}, after the API prelude"}, exp, obs)
+    part.stat("after_activity_shards")
+    part.sample({"after_activity": True, "countries": len(reg.countries())})
+    return part.done()
+
+
 def replay(case: dict) -> dict:
     ok, sig, exp, obs = judge(case["text"])
     return {"ok": ok, "signature": sig, "expected": exp, "observed": obs}
@@ -78,7 +104,7 @@ def replay(case: dict) -> dict:
 def main(tier: str) -> int:
     run = report.Run(PID, tier, "exploration", RULE)
     countries = sorted(reg.countries())
-    par.run_shards(run, shard, [(c, tier) for c in countries])
+    par.run_shards(run, shard, [("after-activity", tier)] + [(c, tier) for c in countries])
     run.extra.update({
         "deviation_bound_completed": ("2 substitutions over W2 (bases distinct, letters) and "
                                       "1 edit over W" if tier == "thorough" else "1 edit over W"),
